@@ -275,9 +275,12 @@ def check_numba_threads(ctx):
             frame = fixtures.make_frame(c["tt"], c["t0"], c["dt"], c["tx"], c["rx"])
             combos = [("noamp", "nearest"), ("noamp", "linear"), ("noamp", ("lanczos", 2)), ("amp", "nearest"), ("amp", "linear")]
             for amp, interp in combos:
-                fl = fixtures.make_focal_law(c["lt_tx"], c["lt_rx"], *( (c["amp_tx"], c["amp_rx"]) if amp == "amp" else (None, None)))
+                # timetrace weights other than one (as the default weights of a half-matrix capture are), or none
+                wts = None if rng.random() < 0.3 else rng.choice([1.0, 2.0, 0.5], size=len(c["tx"]))
+                fl = fixtures.make_focal_law(c["lt_tx"], c["lt_rx"], *( (c["amp_tx"], c["amp_rx"]) if amp == "amp" else (None, None)), weights=wts)
                 numba.set_num_threads(1)
-                before = [x.tobytes() for x in (c["tt"], c["lt_tx"], c["lt_rx"], c["amp_tx"], c["amp_rx"], c["tx"], c["rx"])]
+                tt_obj = frame.timetraces
+                before = [x.tobytes() for x in (c["tt"], c["lt_tx"], c["lt_rx"], c["amp_tx"], c["amp_rx"], c["tx"], c["rx"], frame.timetraces)] + [None if wts is None else wts.tobytes()]
                 ref = das.delay_and_sum(frame, fl, fillvalue=float(rng.choice([0.0, 1.5])), interpolation=interp) if False else None
                 fv = float(rng.choice([0.0, 1.5]))
                 ref = das.delay_and_sum(frame, fl, fillvalue=fv, interpolation=interp)
@@ -289,9 +292,10 @@ def check_numba_threads(ctx):
                     ctx.count("das:threads")
                     if not np.array_equal(res.view(np.uint8), ref.view(np.uint8)):
                         ctx.violate(f"delay_and_sum({amp},{interp}) differs between 1 and {nt} numba threads", {**cj, "threads": nt}, {"kind": "numba_threads"})
-                after = [x.tobytes() for x in (c["tt"], c["lt_tx"], c["lt_rx"], c["amp_tx"], c["amp_rx"], c["tx"], c["rx"])]
-                if before != after:
-                    ctx.violate("delay_and_sum modified an input array", cj, {"kind": "inputs"})
+                after = [x.tobytes() for x in (c["tt"], c["lt_tx"], c["lt_rx"], c["amp_tx"], c["amp_rx"], c["tx"], c["rx"], frame.timetraces)] + [None if wts is None else wts.tobytes()]
+                if before != after or frame.timetraces is not tt_obj:
+                    which = [n for n, b, a in zip(("timetraces", "lookup_times_tx", "lookup_times_rx", "amplitudes_tx", "amplitudes_rx", "tx", "rx", "frame.timetraces", "timetrace_weights"), before, after) if a != b]
+                    ctx.violate(f"delay_and_sum modified its input array(s) {which} (weights {'given' if wts is not None else 'absent'}, dtype {c['tt'].dtype})", cj, {"kind": "inputs"})
         # robust aggregations (complex128 only): many image points so that several threads are busy at once
         for _ in range(2 * ctx.scale):
             numel = int(rng.integers(3, 5))
@@ -330,6 +334,7 @@ def check_numba_threads(ctx):
             delays, freq = rng.uniform(0, 3, size=9), rng.uniform(0, 4, size=5)
             ref2 = signal.timeshift_spectra(x, delays, freq)
             ref3 = signal.timeshift_spectra(x[:, :1], delays, freq)
+            guv_in = [a.tobytes() for a in (mat, inc, outa, x, delays, freq)]
             ctx.case(("guv", mat.tobytes()), True)
             for nt in sorted({2, int(rng.integers(1, maxt + 1)), maxt}):
                 numba.set_num_threads(nt)
@@ -339,6 +344,8 @@ def check_numba_threads(ctx):
                 ctx.count("guv:threads")
                 if not ok:
                     ctx.violate(f"a guvectorize(parallel) kernel differs between 1 and {nt} threads", {"op": "guvectorize", "threads": nt}, {"kind": "numba_threads"})
+            if guv_in != [a.tobytes() for a in (mat, inc, outa, x, delays, freq)]:
+                ctx.violate("a guvectorize(parallel) kernel (matrix interpolation / spectrum time shift) modified one of its input arrays", {"op": "guvectorize"}, {"kind": "inputs"})
     finally:
         numba.set_num_threads(maxt)
 
